@@ -57,8 +57,10 @@ def pytest_runtest_logreport(report):
         k = "suite_tests_" + report.outcome
         c[k] = c.get(k, 0) + 1
         if report.outcome == "failed":
+            loc = getattr(report, "location", None) or ("?", 0, "?")
             _STATE["errors"].append(
-                f"{report.nodeid}: {str(report.longrepr)[-1500:]}")
+                f"{os.path.basename(str(loc[0]))}::{loc[2]}: "
+                f"{str(report.longrepr)[-1500:]}")
 
 
 def pytest_sessionfinish(session, exitstatus):
